@@ -1,8 +1,7 @@
 import importlib.util
 import os
 
-_spec = importlib.util.spec_from_file_location("_chain", os.path.join(os.path.dirname(__file__), "_chain.py"))
+_spec = importlib.util.spec_from_file_location("_multi", os.path.join(os.path.dirname(__file__), "_multi.py"))
 _m = importlib.util.module_from_spec(_spec)
 _spec.loader.exec_module(_m)
-pre_build = _m.pre_build_repr
-pre_checks = _m.pre_checks_repr
+pre_build, pre_checks = _m.hooks("_reprgen", "_algogen")
